@@ -212,3 +212,58 @@ func c07Itoa(n int) string {
 	}
 	return s
 }
+
+// c07FilesShapes (round 7): functions that differ ONLY in their source file.  Function.key is
+// (start line, name, system name, file name): two `lookup` functions starting at the same line in
+// liba/tables.c and libb/tables.c (same BASE name, other directory) are two functions, and so are
+// the neighbours - other base name in one directory, absolute vs relative path, no file name vs a
+// file name, a file name that is a suffix of the other.  The merged profile must keep every
+// sample's lines attributed to the file its input named (what -files, -lines, -filefunctions and
+// -addresses show); at function granularity the same-named functions are one entry.
+func c07FilesShapes() []struct {
+	name string
+	t    *c07Tuple
+} {
+	type variant struct{ name, fa, fb string }
+	variants := []variant{
+		{"same-base-other-dir", "liba/tables.c", "libb/tables.c"},
+		{"other-base-same-dir", "lib/tables.c", "lib/tables2.c"},
+		{"absolute-vs-relative", "/src/lib/tables.c", "lib/tables.c"},
+		{"no-file-vs-file", "", "tables.c"},
+		{"suffix", "tables.c", "a/tables.c"},
+		{"same-file", "lib/tables.c", "lib/tables.c"},
+	}
+	var out []struct {
+		name string
+		t    *c07Tuple
+	}
+	for _, v := range variants {
+		tab := c07Table{
+			funcs:  []string{"main", "lookup", "lookup"},
+			starts: []int64{10, 20, 20},
+			files:  []string{"main.c", v.fa, v.fb},
+			locs: []c07Loc{{id: 1, addr: 0x1000, lines: []int{0}}, {id: 2, addr: 0x2000, lines: []int{1}}, {id: 3, addr: 0x3000, lines: []int{2}}}}
+		if v.fa == v.fb { // one function, two call sites
+			tab.funcs, tab.starts, tab.files = tab.funcs[:2], tab.starts[:2], tab.files[:2]
+			tab.locs[2].lines = []int{1}
+		}
+		mk := func(a, b int64, loc int) c07Prof {
+			return c07Prof{types: [][2]string{{"samples", "count"}, {"cpu", "ms"}}, periodType: [2]string{"cpu", "ms"}, period: 1, sparse: true,
+				samples: []c07Sample{{locs: []int{loc, 0}, vals: []int64{a, b}}, {locs: []int{0}, vals: []int64{1, 10}}}}
+		}
+		pa, pb := mk(5, 50, 1), mk(7, 75, 2)
+		// a third profile that uses both functions itself
+		pc := c07Prof{types: pa.types, periodType: pa.periodType, period: 1, sparse: true,
+			samples: []c07Sample{{locs: []int{1, 0}, vals: []int64{2, 20}}, {locs: []int{2, 0}, vals: []int64{3, 30}}}}
+		add := func(name string, srcs, bases []c07Prof, diff bool) {
+			out = append(out, struct {
+				name string
+				t    *c07Tuple
+			}{v.name + "-" + name, &c07Tuple{tab: tab, srcs: srcs, bases: bases, diffBase: diff}})
+		}
+		add("sum", []c07Prof{pa, pb}, nil, false)
+		add("base", []c07Prof{pb}, []c07Prof{pa}, false)
+		add("diff-base", []c07Prof{pc}, []c07Prof{pa}, true)
+	}
+	return out
+}
